@@ -3,7 +3,7 @@
 # is recorded as detecting it (last detecting entry of meta.json); prints one line per seed and a summary.
 cd "$(dirname "$0")/.."
 fail=0; n=0
-for d in seeded/*/; do
+for d in seeded/${SEEDALL_GLOB:-*}/; do
   name=$(basename "$d")
   chk=$(python3 -c "
 import json
